@@ -187,6 +187,13 @@ theorem C11_expand_errors (enc : Enc) (L : ℕ) (d : Desc) (ds : List Desc) (j :
   | create => simp [expand, hd, hj]
   | annihil => simp [expand, hd, hj]
 
+/-- a zero-sized coefficient array is a `ValueError` (NumPy's `nditer` refuses it), whatever else the term contains -/
+theorem C11_zero_sized_term {α : Type} [EncScalar α] (enc : Enc) (L : ℕ) (op : PauliOp α) (t : Term α)
+    (h : 0 ∈ t.shape) : encodeTerm enc L op t = .error .valueError := by
+  unfold encodeTerm
+  have : t.shape.any (· == 0) = true := List.any_eq_true.mpr ⟨0, h, rfl⟩
+  simp [this]
+
 /-! ### non-vacuity -/
 
 /-- a hopping term plus a constant on three sites -/
